@@ -1,5 +1,6 @@
 import CnlDriver.CS
 import CnlModel.Parse
+import CnlModel.Elastic
 import CnlSpec.Token
 /-!
 `C15` driver table: literals, run-time `parse`, constant-driven deduction.
@@ -197,6 +198,38 @@ def checkC15 (toks : List String) (res : String) : Option Verdict :=
       | none => false
     let ok := holdsExactly res (v : Rat) && promised
     some { model, spec := some ok, cls := "", branch := s!"mk/{fn}/c" }
+  | ["mk", fn, nt, "c", v] => do
+    -- make_*<Narrowest>(constant): the same deduction with an explicit narrowest type; the storage follows
+    -- set_digits (Elastic.repTy)
+    let N ← parseIntTy nt; let v ← v.toInt?
+    let tz := trailingBits v
+    let m : Res Made ← match fn with
+      | "elastic_integer" =>
+        let d := constantDigits v
+        some (match Elastic.repTy d N with
+          | some r => .ok ⟨.el d (.int N), .builtin r, v⟩ | none => .ill "digits exceed the widest integer")
+      | "elastic_scaled_integer" =>
+        let d := max (constantDigits v - tz) 1
+        some (match Elastic.repTy d N with
+          | some r => .ok ⟨.sc (.el d (.int N)) tz 2, .builtin r, shiftOut v tz⟩ | none => .ill "digits exceed the widest integer")
+      | _ => none
+    let model := showLit showMade m
+    let scaled := fn == "elastic_scaled_integer"
+    let promised : Bool := match splitMade res with
+      | some (t, _, x) => match shape t with
+        | some (d, e, _) =>
+          (e == (if scaled then (Token.trailingZeros v.natAbs : Int) else 0)) &&
+          (match d with
+           | some d => d == Token.bitLength x.natAbs || d == max (Token.bitLength x.natAbs) 1
+           | none => true)
+        | none => false
+      | none => false
+    -- the representation must really hold the value: its type has at least the promised digits
+    let repHolds : Bool := match (res.splitOn ":") with
+      | [_, r, x] => (match parseIntTy r, x.toInt? with | some rt, some xv => rt.inRange xv | _, _ => false)
+      | _ => false
+    let ok := holdsExactly res (v : Rat) && promised && repHolds
+    some { model, spec := some ok, branch := s!"mk/{fn}/{nt}" }
   | ["mk", fn, ty, v] => do
     let T ← parseIntTy ty
     let v ← v.toInt?
